@@ -74,6 +74,8 @@ func c11Alphabet(thorough bool) []c11Op {
 			}
 		}
 	}
+	// nested members at a non-zero offset of their own (packed struct members), and a second-level nesting
+	ops = append(ops, c11Op{Kind: "regnested", Parent: 0, PType: 0, Slot: 2, Off: 1, Type: 0, Name: "j"}, c11Op{Kind: "regnested", Parent: 1, PType: 0, Slot: 1, Off: 1, Type: 1, Name: "j"})
 	if thorough {
 		ops = append(ops, c11Op{Kind: "regnested", Parent: 0, PType: 1, Slot: 2, Off: 1, Type: 0, Name: "j"}, c11Op{Kind: "regnested", Parent: 2, PType: 0, Slot: 3, Off: -1, Type: 0, Name: "i"})
 	}
